@@ -526,6 +526,21 @@ pub fn run_shard(ctx: &mut Ctx) {
             }
             Err(e) => ctx.out.inconclusive.push(format!("alias round: {}", e)),
         }
+        // (d2) the lock service fails for the contender; a snapshot outlives its owner
+        match crate::props::c13x::flock_fault_round(&ci) {
+            Ok((vi, n)) => {
+                ctx.out.count("attempts_whose_flock_call_failed_with_another_errno", n);
+                if let Some(vi) = vi {
+                    ctx.out.viol(vi);
+                }
+            }
+            Err(e) => ctx.out.inconclusive.push(format!("flock-fault round: {}", e)),
+        }
+        match crate::props::c13x::snapshot_outlives_owner_round(&ci) {
+            Ok(Some(vi)) => ctx.out.viol(vi),
+            Ok(None) => ctx.out.count("reopens_while_a_snapshot_of_the_dropped_owner_was_alive", 1),
+            Err(e) => ctx.out.inconclusive.push(format!("snapshot round: {}", e)),
+        }
         // (e) the owner's worker ends on an I/O error, the owner lives on
         for _ in 0..2 {
             match crate::props::c13x::dead_worker_round(r.next()) {
